@@ -58,6 +58,8 @@ EW = {
     'absolute': (algopy.absolute, _sym_even(abs), lambda lo, hi: lo > 0.2 or hi < -0.2),
     'sign': (algopy.sign, lambda lo, hi: (-1.0, 1.0), lambda lo, hi: lo > 0.2 or hi < -0.2),
     'conjugate': (algopy.conjugate, lambda lo, hi: (lo, hi), lambda lo, hi: True),      # on real data: the identity, still one node
+    'real': (algopy.real, lambda lo, hi: (lo, hi), lambda lo, hi: True),                  # on real data: the identity
+    'imag': (algopy.imag, lambda lo, hi: (0.0, 0.0), lambda lo, hi: True),                # on real data: zero
     'pow2': (lambda x: x ** 2, _sym_even(lambda v: v * v), lambda lo, hi: max(abs(lo), abs(hi)) < 6),
     'pow3': (lambda x: x ** 3, _mono(lambda v: v ** 3), lambda lo, hi: max(abs(lo), abs(hi)) < 4),
     'powm2': (lambda x: x ** (-2), lambda lo, hi: (1 / hi ** 2, 1 / lo ** 2), lambda lo, hi: lo > 0.3),
@@ -70,7 +72,7 @@ BIN = {'add': lambda a, b: a + b, 'sub': lambda a, b: a - b, 'mul': lambda a, b:
 
 # element-wise functions the tracer can record (Function has a method / pb_* exists)
 TRACEABLE = {'sin', 'cos', 'tan', 'exp', 'expm1', 'square', 'negative', 'log', 'log1p', 'sqrt', 'reciprocal', 'erf', 'expit',
-             'logit', 'dawsn', 'gammaln', 'psi', 'absolute', 'sign', 'pow2', 'pow3', 'powm2', 'pow1.5', 'conjugate'}
+             'logit', 'dawsn', 'gammaln', 'psi', 'absolute', 'sign', 'pow2', 'pow3', 'powm2', 'pow1.5', 'conjugate', 'real', 'imag'}
 
 
 def _imul(a, b):
@@ -147,8 +149,7 @@ class Gen:
         return True
 
     def s_maxmin(self):
-        """element-wise maximum / minimum of two values of the same shape through the public dispatcher (forward only: the
-        library provides no pullback for them)"""
+        """element-wise maximum / minimum of two values of the same shape through the public dispatcher"""
         a = self.pick(lambda v: not v.get('buf'))
         if a is None:
             return False
@@ -435,11 +436,17 @@ class Gen:
         n = self.vars[buf]['shape'][0]
         lo = self.rng.randrange(n)
         hi = self.rng.randint(lo + 1, n)
-        fn = self.rng.choice(['mul', 'add', 'sub', 'div'])
+        fn = self.rng.choice(['mul', 'add', 'sub', 'div', 'pow'])
         c = self.rng.choice([2.0, -0.5, 1.5])
-        self.steps.append({'op': 'iopview', 'buf': buf, 'lo': lo, 'hi': hi, 'fn': fn, 'c': c})
         l, h = self.vars[buf]['iv']
-        cand = {'mul': [l * c, h * c], 'div': [l / c, h / c], 'add': [l + c, h + c], 'sub': [l - c, h - c]}[fn]
+        if fn == 'pow':
+            c = self.rng.choice([2, 3])
+            if max(abs(l), abs(h)) > 3:
+                fn, c = 'mul', 0.5
+        self.steps.append({'op': 'iopview', 'buf': buf, 'lo': lo, 'hi': hi, 'fn': fn, 'c': c})
+        m_ = max(abs(l), abs(h))
+        cand = ({'mul': [l * c, h * c], 'div': [l / c, h / c], 'add': [l + c, h + c], 'sub': [l - c, h - c]}[fn] if fn != 'pow'
+                else [-(m_ ** c), m_ ** c])
         self.widen(buf, (min(l, *cand), max(h, *cand)))
         return True
 
@@ -486,7 +493,11 @@ class Gen:
         if a is None:
             return False
         lo, hi = self.vars[a]['iv']
-        self.steps.append({'op': 'tri', 'fn': self.rng.choice(['tril', 'triu']), 'a': a})
+        st = {'op': 'tri', 'fn': self.rng.choice(['tril', 'triu']), 'a': a}
+        if self.rng.random() < 0.5:
+            st['k'] = self.rng.choice([-1, 0, 1])                  # the diagonal offset, positional or by keyword
+            st['kw'] = self.rng.random() < 0.5
+        self.steps.append(st)
         self.new(self.vars[a]['shape'], (min(lo, 0.0), max(hi, 0.0)))
         return True
 
@@ -588,7 +599,7 @@ class Gen:
             self.new(sh, (-BOX, BOX))
         kinds = kinds or ['ew', 'ew', 'bin', 'bin', 'binc', 'getitem', 'sum', 'transpose', 'reshape', 'dot', 'dotc',
                           'outer', 'prod', 'buffer', 'linalg', 'fftfilter', 'buffer2d', 'symvec', 'bufferconst', 'bufferiop',
-                          'cplxparts', 'tri', 'setarr', 'realalias']
+                          'cplxparts', 'tri', 'setarr', 'realalias', 'maxmin']
         nsteps = self.rng.randint(1, self.maxsteps)
         tries = 0
         made = 0
@@ -756,7 +767,12 @@ def run_program(prog, inputs):
                 r_ = algopy.real(z)
                 vals.append(i_ * r_ + algopy.real(z * z) * 0.5)
         elif op == 'tri':
-            vals.append(getattr(algopy, st['fn'])(vals[st['a']]))
+            if 'k' not in st:
+                vals.append(getattr(algopy, st['fn'])(vals[st['a']]))
+            elif st.get('kw'):
+                vals.append(getattr(algopy, st['fn'])(vals[st['a']], k=st['k']))
+            else:
+                vals.append(getattr(algopy, st['fn'])(vals[st['a']], st['k']))
         elif op == 'setarr':
             if st.get('zerod'):
                 vals[st['buf']][st['lo']] = np.array(st['c'][0])
@@ -787,6 +803,8 @@ def run_program(prog, inputs):
                 row += st['c']
             elif st['fn'] == 'sub':
                 row -= st['c']
+            elif st['fn'] == 'pow':
+                row **= st['c']
             else:
                 row /= st['c']
         elif op == 'setconst':
